@@ -1,12 +1,33 @@
 """Per-property claims; imported by tools/manifest.py."""
 
+K = "Lean 4.33 kernel; axioms propext / Classical.choice / Quot.sound only; "
 BV = ("Lean 4.33 kernel; axioms propext/Classical.choice/Quot.sound plus one <theorem>._native.bv_decide.ax_* axiom per "
       "bv_decide call (LRAT certificate checked by compiled code, ofReduceBool-style); ")
-TR = ("translator tools/translate (numba integer semantics = 64-bit two's complement, re-validated differentially against "
-      "the real numba kernels on every run); ")
+TR = ("translator tools/translate (numba integer semantics = 64-bit two's complement; tables are evaluated from the working tree, "
+      "both re-validated differentially against the real code on every run); ")
+NAT = ("pybind11 stand-in native/standin used to compile the working-tree C++ natively (the installed extension cannot be "
+       "rebuilt here); ")
+REAL = ("theorems over the reals (Mathlib): IEEE rounding, libm and vector's coordinate conversions are outside the model and are "
+        "covered only by the tolerance-based correspondence; ")
 
 
 def register(claim):
+    claim("C03", "proof",
+          "parse_encode: for every well-formed block sequence (any number of events/blocks/fragments incl. empty ones, status words on either "
+          "side, full-width fields) and every selection, the model of the C++ parser returns exactly the intended records; merge_spec for "
+          "T/Q merging; unpack(pack)=id. Model tied to the working-tree C++ (native build) and to the real Python reader on generated files.",
+          K + NAT + "hand-written model Model/RawParser.lean + Spec/RawFormat.lean; constants/masks extracted from the C++ on every run (Props/RawTie); "
+          "Python framing (_preprocess_file/_read_batch) and awkward assembly are compared on generated files, not proved.",
+          "Lean 4 round-trip theorem (decode (encode x) = x by induction over the nested format) on a hand-written parser model; "
+          "three-way correspondence model / native working-tree build / intended decode; real reader on generated files", "DESIGN.md §6 C03")
+    claim("C04", "proof",
+          "Termination of the batch loop within N+2 iterations for every n_blocks in {-1} U N and batch size >= 1; result = decode of the first "
+          "min(n, N) blocks for every batch size, every completion order of the pool and every earlier cursor position (hence prefix, "
+          "idempotence, batch/worker invariance); selection = projection of the full read (C03b). Real arrays() exercised over a grid with perturbed "
+          "completion orders under a watchdog.",
+          K + NAT + "thread interleavings are sampled (seeded sleeps), not enumerated; data-race freedom rests on each call owning its parser (partial for thread-safety).",
+          "Lean 4 theorems on a fuelled loop model + pool-as-permutation model; correspondence against the real reader in a watched child process",
+          "DESIGN.md §6 C04")
     claim("C05", "proof",
           "36 Lean theorems over BitVec 64 about the kernels regenerated from digi_id.py on every run: decode(encode f) = f "
           "truncated to the field, tag/validity exclusivity, word->fields->word reproduces all defined bits, TOF one/two-"
@@ -16,3 +37,68 @@ def register(claim):
           "Lean 4 theorems (bv_decide) on a model regenerated from source by an AST translator; differential "
           "translator validation vs numba; exhaustive field-space oracle on the real kernels as failing-input search",
           "DESIGN.md §6 C05, §5.1")
+    claim("C06", "proof",
+          "Over the reals, for both charges: signed radius = -alpha/kappa, circle centre preserved, curvature and dip unchanged, the new parameters "
+          "describe the same BOSS trajectory re-parametrised by the turning angle (same circle, same sense, same z-angle relation), the new "
+          "reference point is the point of the circle closest to the new pivot and the momentum is tangent there. Float model tied to object/"
+          "record/array forms; sign convention anchored on reconstructed fixture tracks vs their MDC hits.",
+          K + REAL + "hand-written model Model/Helix.lean mirrors _change_pivot after the fix: commits.",
+          "Lean 4 + Mathlib theorems about one polymorphic model (run on Float, proved on R); tolerance-based correspondence; "
+          "trajectory-residual oracle on the implementation; fixture hit residuals", "DESIGN.md §6 C06")
+    claim("C08", "proof",
+          "Whole-table kernel evaluation (decide +kernel over all 6796 wires / 6240 crystals / all (layer,wire) and (part,theta,phi) tuples): density, "
+          "documented order, both inverse directions, layer_start = cumulative counts, ring starts equal the documented ranges, digi route; "
+          "invalid-marker cases symbolically. Tables and kernels regenerated from the working tree and the docs on every run.",
+          BV + TR + "documented EMC ring sizes (barrel 44x120 is not in the docs table; taken from the property text).",
+          "Lean 4 kernel evaluation over complete finite tables (balanced allBlock + lifting lemma) on generated models; differential vs numba; "
+          "documentation-derived numbering oracle incl. scalar call paths", "DESIGN.md §6 C08, §5.2")
+    claim("C10", "proof",
+          "Index bound for every 32-bit word (symbolic), totality (invalid marker or own tag), injectivity on mapped entries (certificate-checked), "
+          "MDC wire type = geometry stereo class, every wire / crystal has exactly one pre-image, field ranges, equality with the pinned reference - "
+          "all over the complete tables as evaluated from the working tree; conversion checked on a real read containing every representable id.",
+          K + TR + NAT + "BOSS sources unavailable: 'equals the BOSS map' = equals reference/reid_tables.json (SHA-256 pinned); injectivity certificates "
+          "are emitted by the generator and checked in the kernel.",
+          "Lean 4 kernel evaluation over complete tables + certificate lemma; all-ids synthetic raw file through the real reader",
+          "DESIGN.md §6 C10")
+    claim("C11", "proof",
+          "Over the reals: output in normal form (phi0 in [0,2pi)), identity, (dr,phi0) depend only on the circle and the new pivot (path "
+          "independence for any sequence by composition), dz equal up to whole pitches and exactly when the accumulated turning angle stays in "
+          "(-pi,pi], there-and-back restores all five parameters (dphi != pi). Chained calls compared in object/record/array form.",
+          K + REAL + "error-matrix inverse is checked by correspondence/oracle only (J_back J_forth = I is not a theorem).",
+          "Lean 4 + Mathlib theorems; chained Float-model correspondence; direct-move / identity / there-and-back oracle", "DESIGN.md §6 C11")
+    claim("C12", "proof",
+          "Implicit-differentiation theorems: along any differentiable family satisfying the defining relations the derivative of (dr', phi0', dz') "
+          "is given by exactly the entries the code uses (rows 0,1,3; rows 2,4 identity), for the signed radius; J E J^T is the matrix product, "
+          "symmetric / PSD preserved, identity move leaves E unchanged. Implementation compared with a Richardson finite-difference Jacobian of "
+          "its own parameter map.",
+          K + REAL + "differentiability of the parameter map itself away from the branch cuts is assumed (the theorem is conditional on a differentiable family).",
+          "Lean 4 + Mathlib (HasDerivAt uniqueness, linear_combination, Matrix.PosSemidef); finite-difference oracle; Float-model correspondence",
+          "DESIGN.md §6 C12")
+    claim("C13", "proof",
+          "Over the reals: documented position (pivot + offset), momentum (pt, azimuth mod 2pi, pz), charge and radius formulas; constructing a helix "
+          "from its own reported position, momentum, charge and pivot reproduces it for every pivot, either charge, dr of either sign or zero, phi0 "
+          "anywhere in [0,2pi). Object/record/array forms and the three constructor forms compared.",
+          K + REAL + "sign of a dr below the rounding error of the position is not compared (unrecoverable in floating point).",
+          "Lean 4 + Mathlib theorems; Float-model correspondence; documented-formula oracle at non-zero pivots", "DESIGN.md §6 C13")
+    claim("C15", "proof",
+          "For every word list and selection the parser model returns arrays or an error: never an out-of-bounds access, never out of fuel "
+          "(loop bound length+1 always suffices), and a successful decode consumed the buffer; the same definition satisfies parse_encode (C03). "
+          "Per-buffer agreement (outcome class and arrays) with the ASan+UBSan native build of the working tree on mutated / truncated / random buffers.",
+          K + NAT + "memory safety of std::vector/std::map internals and the pybind11/numpy glue is outside the model; the installed binary is not the subject.",
+          "Lean 4 safety + termination theorems on a model with explicit memory accesses; sanitizer-instrumented native build as correspondence and oracle",
+          "DESIGN.md §6 C15")
+    claim("C16", "proof",
+          "Index expression translated from root_io.hh: idx = max(max+1)/2+min, symmetric, in range, lower triangle bijective; constructor accepts iff "
+          "n(n+1)/2 <= flat; expansion M[i][j]=M[j][i]=packed[idx] for any content; fullDim(n(n+1)/2)=n and the factory's pair is always accepted. "
+          "Native working-tree reader, installed reader, Python factory (incl. call histories) and all fixture matrix members compared.",
+          K + NAT + "dimensions > 46340 (C++ int overflow) unmodelled; IEEE sqrt exact on perfect squares < 2^53.",
+          "Lean 4 theorems on translated index expression + hand-written reader model; native ASan build and installed reader as correspondence; "
+          "independent-decode oracle on fixtures", "DESIGN.md §6 C16")
+    claim("C17", "proof",
+          "Over all histories of table updates / process starts / loads / first uses / (interrupted) checks / forced clears: after a complete check no "
+          "cache is older than its table; fresh caches untouched; force clears all; interruption only removes files. Content level: for atomic "
+          "histories every surviving cache was built from the current table; machine-checked witness that this fails otherwise (recorded finding, "
+          "replayed end-to-end on the real package every run).",
+          K + "timestamp granularity, numba's own cache index handling and concurrent importers are outside the model; glob order fixed in the harness.",
+          "Lean 4 invariants by induction over operation histories with crash points; real cache_auto_clear on a scratch layout as correspondence; "
+          "end-to-end interpreter scenarios as oracle", "DESIGN.md §6 C17")
